@@ -1,6 +1,9 @@
 package main
 
 import (
+	"fmt"
+	"os"
+	"go/constant"
 	"go/token"
 	"go/types"
 	"strings"
@@ -333,7 +336,7 @@ func c04(c *Ctx) {
 		hasFlag := false
 		if st != nil {
 			for i := 0; i < st.NumFields(); i++ {
-				if st.Field(i).Name() == "isMethod" || (isBool(st.Field(i).Type()) && strings.Contains(strings.ToLower(st.Field(i).Name()), "method")) {
+				if isBool(st.Field(i).Type()) && c04MethodFlag(p, st.Field(i)) {
 					hasFlag = true
 					fld := st.Field(i)
 					okDrop := false
@@ -434,7 +437,7 @@ func c04(c *Ctx) {
 			cn := calleeName(cl.Common())
 			switch {
 			case cl.Call.IsInvoke() && cl.Call.Method.Name() == "Elem" && strings.HasSuffix(cl.Call.Value.Type().String(), "reflect.Type"):
-				if !underVariadic(cl.Block()) {
+				if !underVariadic(p, cl.Block()) {
 					return
 				}
 				// receiver must come only from types[len-1]
@@ -453,7 +456,7 @@ func c04(c *Ctx) {
 				r.Check(ok, "C04.R4", "Type.Elem under variadic in "+shortName(f), p.Pos(posOf(cl)), "applied to the last parameter type only",
 					"under the variadic flag Type.Elem() is applied to a parameter type that is not provably the last one: a fixed leading parameter (func(int, ...string)) is unwrapped and panics")
 			case cn == "(reflect.Value).Len" || cn == "(reflect.Value).Index":
-				if !underVariadic(cl.Block()) {
+				if !underVariadic(p, cl.Block()) {
 					return
 				}
 				var srcs []*ssa.IndexAddr
@@ -512,20 +515,241 @@ func isValueSlice(t types.Type) bool {
 	return ok && strings.HasSuffix(sl.Elem().String(), "reflect.Value")
 }
 
-// underVariadic: block runs only under a true bool condition whose name mentions "variadic" (param or field),
+// variadicCarriers computes, by provenance and not by name, the bool parameters and fields that carry "the mocked function
+// is variadic": the least set closed under — a value is variadic-derived when each of its origins is Type.IsVariadic(),
+// the constant false, a carrier parameter/field, or a result of a module function whose returns are all derived at that
+// index; a parameter is a carrier when it has call sites (static or through a module interface) and every one passes a
+// derived value; a field is a carrier when every store to it stores a derived value.
+type variadicSet struct {
+	params map[*ssa.Parameter]bool
+	fields map[*types.Var]bool
+	res    map[string]bool // fn|idx
+}
+
+func (p *Prog) variadicCarriers() *variadicSet {
+	if p.vset != nil {
+		return p.vset
+	}
+	var fns []*ssa.Function
+	for _, f := range p.Funcs {
+		if strings.HasPrefix(pkgPathOf(f), Mod) && f.Blocks != nil {
+			fns = append(fns, f)
+		}
+	}
+	sitesOf := map[*ssa.Function][]ssa.CallInstruction{}
+	stores := map[*types.Var][]ssa.Value{}
+	for _, f := range fns {
+		eachInstr(f, func(i ssa.Instruction) {
+			switch x := i.(type) {
+			case ssa.CallInstruction:
+				for _, cal := range p.modCallees(x) {
+					sitesOf[cal] = append(sitesOf[cal], x)
+				}
+			case *ssa.Store:
+				if fa, ok := x.Addr.(*ssa.FieldAddr); ok {
+					if fv := fieldVar(fa.X.Type(), fa.Field); fv != nil && isBool(fv.Type()) {
+						stores[fv] = append(stores[fv], x.Val)
+					}
+				}
+			}
+		})
+	}
+	rkey := func(f *ssa.Function, k int) string { return fmt.Sprintf("%p|%d", f, k) }
+	// classify the origins of a value with respect to a candidate set: ok = every origin is admissible,
+	// src = some origin is a real source or a member accepted by isMember
+	classify := func(v ssa.Value, vs *variadicSet) (ok, src bool) {
+		ats := origins(v)
+		if len(ats) == 0 {
+			return false, false
+		}
+		ok = true
+		for _, a := range ats {
+			switch x := a.V.(type) {
+			case *ssa.Const:
+				if x.Value == nil || !isBool(x.Type()) || constant.BoolVal(x.Value) {
+					ok = false
+				}
+				continue
+			case *ssa.Parameter:
+				if vs.params[x] {
+					src = true
+				} else {
+					ok = false
+				}
+				continue
+			}
+			if _, fv, isF := fieldRef(a.V); isF && fv != nil && a.Kind == "field" {
+				if vs.fields[fv] {
+					src = true
+				} else {
+					ok = false
+				}
+				continue
+			}
+			var call *ssa.Call
+			idx := 0
+			switch x := a.V.(type) {
+			case *ssa.Call:
+				call = x
+			case *ssa.Extract:
+				call, _ = x.Tuple.(*ssa.Call)
+				idx = x.Index
+			}
+			if call == nil {
+				ok = false
+				continue
+			}
+			if call.Call.IsInvoke() && call.Call.Method.Name() == "IsVariadic" && strings.HasSuffix(call.Call.Value.Type().String(), "reflect.Type") {
+				src = true
+				continue
+			}
+			if cal := staticCallee(call.Common()); cal != nil && vs.res[rkey(cal, idx)] {
+				src = true
+			} else {
+				ok = false
+			}
+		}
+		return
+	}
+	argAt := func(ci ssa.CallInstruction, k int) ssa.Value {
+		args := ci.Common().Args
+		if ci.Common().IsInvoke() {
+			k--
+		}
+		if k < 0 || k >= len(args) {
+			return nil
+		}
+		return args[k]
+	}
+	// phase 1: greatest fixpoint — start from every bool parameter (with call sites), field (with stores) and result
+	all := &variadicSet{map[*ssa.Parameter]bool{}, map[*types.Var]bool{}, map[string]bool{}}
+	for _, f := range fns {
+		for _, pr := range f.Params {
+			if isBool(pr.Type()) && len(sitesOf[f]) > 0 {
+				all.params[pr] = true
+			}
+		}
+		for k := 0; k < f.Signature.Results().Len(); k++ {
+			if isBool(f.Signature.Results().At(k).Type()) {
+				all.res[rkey(f, k)] = true
+			}
+		}
+	}
+	for fv := range stores {
+		all.fields[fv] = true
+	}
+	for changed := true; changed; {
+		changed = false
+		for _, f := range fns {
+			for k, pr := range f.Params {
+				if !all.params[pr] {
+					continue
+				}
+				for _, ci := range sitesOf[f] {
+					a := argAt(ci, k)
+					if a == nil {
+						delete(all.params, pr)
+						changed = true
+						break
+					}
+					if ok, _ := classify(a, all); !ok {
+						delete(all.params, pr)
+						changed = true
+						break
+					}
+				}
+			}
+			for k := 0; k < f.Signature.Results().Len(); k++ {
+				if !all.res[rkey(f, k)] {
+					continue
+				}
+				for _, ret := range returnsOf(f) {
+					if ok, _ := classify(retResult(ret, k), all); !ok {
+						delete(all.res, rkey(f, k))
+						changed = true
+						break
+					}
+				}
+			}
+		}
+		for fv, vals := range stores {
+			if !all.fields[fv] {
+				continue
+			}
+			for _, v := range vals {
+				if ok, _ := classify(v, all); !ok {
+					delete(all.fields, fv)
+					changed = true
+					break
+				}
+			}
+		}
+	}
+	// phase 2: grounding — keep only members some of whose sources lead back to Type.IsVariadic()
+	vs := &variadicSet{map[*ssa.Parameter]bool{}, map[*types.Var]bool{}, map[string]bool{}}
+	for changed := true; changed; {
+		changed = false
+		for _, f := range fns {
+			for k, pr := range f.Params {
+				if !all.params[pr] || vs.params[pr] {
+					continue
+				}
+				for _, ci := range sitesOf[f] {
+					if _, src := classify(argAt(ci, k), vs); src {
+						vs.params[pr] = true
+						changed = true
+						break
+					}
+				}
+			}
+			for k := 0; k < f.Signature.Results().Len(); k++ {
+				if !all.res[rkey(f, k)] || vs.res[rkey(f, k)] {
+					continue
+				}
+				for _, ret := range returnsOf(f) {
+					if _, src := classify(retResult(ret, k), vs); src {
+						vs.res[rkey(f, k)] = true
+						changed = true
+						break
+					}
+				}
+			}
+		}
+		for fv, vals := range stores {
+			if !all.fields[fv] || vs.fields[fv] {
+				continue
+			}
+			for _, v := range vals {
+				if _, src := classify(v, vs); src {
+					vs.fields[fv] = true
+					changed = true
+					break
+				}
+			}
+		}
+	}
+	p.vset = vs
+	if os.Getenv("GOOMVET_DEBUG") != "" {
+		vs.dump(p)
+	}
+	return vs
+}
+
+// underVariadic: block runs only under a true bool condition that carries the variadic flag (see variadicCarriers),
 // or under the result of Type.IsVariadic().
-func underVariadic(b *ssa.BasicBlock) bool {
+func underVariadic(p *Prog, b *ssa.BasicBlock) bool {
+	vs := p.variadicCarriers()
 	for _, g := range guardsAt(b) {
 		if !g.Pol {
 			continue
 		}
 		switch x := g.Cond.(type) {
 		case *ssa.Parameter:
-			if strings.Contains(strings.ToLower(x.Name()), "variadic") {
+			if vs.params[x] {
 				return true
 			}
 		case *ssa.UnOp:
-			if _, fv, ok := fieldRef(x); ok && fv != nil && strings.Contains(strings.ToLower(fv.Name()), "variadic") {
+			if _, fv, ok := fieldRef(x); ok && fv != nil && vs.fields[fv] {
 				return true
 			}
 		case *ssa.Call:
@@ -533,13 +757,16 @@ func underVariadic(b *ssa.BasicBlock) bool {
 				return true
 			}
 		case *ssa.Extract:
-			return true
+			if cl, ok := x.Tuple.(*ssa.Call); ok {
+				if cal := staticCallee(cl.Common()); cal != nil && vs.res[fmt.Sprintf("%p|%d", cal, x.Index)] {
+					return true
+				}
+			}
 		}
 	}
 	return false
 }
 
-// collectIndexSources walks back through value-preserving ops and reflect.ValueOf/Interface to slice element loads.
 func collectIndexSources(v ssa.Value, out *[]*ssa.IndexAddr, seen map[ssa.Value]bool) {
 	if v == nil || seen[v] {
 		return
@@ -618,4 +845,28 @@ func isCallToFn(v ssa.Value, f *ssa.Function) bool {
 	}
 	cl, ok := v.(*ssa.Call)
 	return ok && f != nil && staticCallee(cl.Common()) == f
+}
+
+// c04MethodFlag: the bool field of a matcher that records "the mocked function is a method". It is identified by its
+// provenance, not its name: it is the bool field a constructor fills directly from one of its bool parameters (the
+// variadic flag is computed from the function type instead).
+func c04MethodFlag(p *Prog, fld *types.Var) bool {
+	for _, fs := range storesToField(p.FuncsIn(""), func(fv *types.Var, _ ssa.Value) bool { return fv == fld }) {
+		if pr, ok := resolveLocal(fs.Store.Val).(*ssa.Parameter); ok && isBool(pr.Type()) {
+			return true
+		}
+	}
+	return false
+}
+
+func (vs *variadicSet) dump(p *Prog) {
+	for pr := range vs.params {
+		fmt.Println("  carrier param", shortName(pr.Parent()), pr.Name())
+	}
+	for fv := range vs.fields {
+		fmt.Println("  carrier field", fv.Name())
+	}
+	for f := range p.Funcs {
+		_ = f
+	}
 }
